@@ -518,3 +518,25 @@ Check member_file_is_cleaned_td.
 Check cleanup_foreign_instance_dir_t.
 Check cleanup_foreign_dir_instance_t.
 Check member_file_is_cleaned_t.
+
+(* the infix of a member of a time-stamp naming IS a text that the format writes (for some civil time): what only chrono's
+   lenient parser reads as a time stamp - a blank or a sign in front, numbers without padding - is not (repair b8c3c12) *)
+Theorem C14_ts_infix_is_written_text i :
+  canonical_ts std_fmt i = true -> exists cv, i = format_ts std_fmt cv.
+Proof.
+  unfold canonical_ts. destruct (parse_ts_local std_fmt i) as [l|]; [|discriminate].
+  intros H. apply Bool.orb_true_iff in H. destruct H as [H|H].
+  - apply beq_eq in H. eexists. symmetry. exact H.
+  - apply Bool.andb_true_iff in H. destruct H as [_ H]. apply beq_eq in H. eexists. symmetry. exact H.
+Qed.
+Check C14_ts_infix_is_written_text.
+Print Assumptions C14_ts_infix_is_written_text.
+
+(* non-vacuity / the reviewer's names: chrono reads each of them as a time stamp, none is a text the format writes; the
+   logger's own text and a leap second are *)
+Example C14_lenient_names_foreign :
+  List.map (fun s => (match parse_ts_local std_fmt (bs s) with Some _ => true | None => false end, canonical_ts std_fmt (bs s)))
+           ["r2024-1-5_3-4-5"; "r+2024-01-05_03-04-05"; "r 2024-01-05_03-04-05"; "r2024-01-05_03-04-5";
+            "r2024-01-05_03-04-05"; "r2024-02-29_23-59-60"]%string
+  = [(true, false); (true, false); (true, false); (true, false); (true, true); (true, true)].
+Proof. vm_compute. reflexivity. Qed.
